@@ -17,6 +17,7 @@ for _nd in (1, 2, 3):
       stubs=[])
     K('C16.a.%d.minus' % _nd, property='C16', engine='symex', harness='C16/rank.cpp', entries=['k_rank_to_ind'],
       tus=_GRIDTUS, defines={'all': {'VF_ND': _nd, 'VF_NXMAX': 1024, 'VF_MINUS': 1}},
+      tiers=('quick', 'thorough') if _nd < 3 else ('thorough',),
       bounds={'quick': 'ndim = %d, every nx[d] an arbitrary int in [2, 1024]; every cell rank in [0, prod(nx[d]-1))' % _nd},
       timeout_ms={'quick': 120000, 'thorough': 600000}, validate={'quick': 30, 'thorough': 60},
       what='Grid::rankToIndice(minusOne=true): indices in [0, nx[d]-1) and equal to the mixed-radix digits of the rank in the '
@@ -30,7 +31,7 @@ _COORDTUS = ['src/Basic/Grid.cpp', 'src/Basic/Rotation.cpp', 'src/Basic/Utilitie
 for _nd in (1, 2, 3):
     K('C16.b.%d' % _nd, property='C16', engine='symex', harness='C16/coord.cpp',
       entries=['k_node_roundtrip', 'k_percent', 'k_point_to_cell'],
-      tus=_COORDTUS, defines={'all': {'VF_ND': _nd}},
+      tus=_COORDTUS, defines={'all': {'VF_ND': _nd}}, tiers=('quick', 'thorough') if _nd < 3 else ('thorough',),
       bounds={'quick': 'ndim = %d, unrotated; x0, dx > 0 arbitrary reals; nx[d] in [1,1024]; node / cell indices arbitrary ints in [-2^20, 2^20]; '
                        'query point an arbitrary real point; eps = EPSILON6 (the default)' % _nd},
       timeout_ms={'quick': 120000, 'thorough': 600000}, validate={'quick': 30, 'thorough': 60}, validate_doubles='dyadic',
